@@ -17,6 +17,15 @@ import (
 // ErrInjected is the error all injected faults return.
 var ErrInjected = errors.New("iosim: injected I/O fault")
 
+// TimeoutError is the injected error of plans with Timeout set: it wraps
+// ErrInjected and looks like an expired deadline (net.Error).
+type TimeoutError struct{}
+
+func (TimeoutError) Error() string   { return "iosim: injected I/O fault: i/o timeout" }
+func (TimeoutError) Timeout() bool   { return true }
+func (TimeoutError) Temporary() bool { return true }
+func (TimeoutError) Unwrap() error   { return ErrInjected }
+
 // Kind of reader fault.
 type Kind int
 
@@ -40,6 +49,10 @@ type Plan struct {
 	Kind Kind
 	K    int // byte offset
 	M    int // repeat count for ZeroReads
+	// Timeout makes the injected error a net.Error-style value whose Timeout()
+	// and Temporary() report true (an expired read deadline keeps failing that
+	// way: "temporary" does not mean the next Read succeeds).
+	Timeout bool
 }
 
 func (p Plan) String() string {
@@ -49,12 +62,22 @@ func (p Plan) String() string {
 	if p.Kind == ZeroReads {
 		return fmt.Sprintf("%s@%d x%d", p.Kind, p.K, p.M)
 	}
+	if p.Timeout {
+		return fmt.Sprintf("%s@%d (timeout error)", p.Kind, p.K)
+	}
 	return fmt.Sprintf("%s@%d", p.Kind, p.K)
 }
 
 // ReadBudgetExceeded is the panic value raised when the consumer keeps calling
 // Read after the budget is used up: a deterministic livelock sentinel.
 type ReadBudgetExceeded struct{ Calls int }
+
+func (r *Reader) err() error {
+	if r.Plan.Timeout {
+		return TimeoutError{}
+	}
+	return ErrInjected
+}
 
 // Reader is an io.Reader over Data with one fault Plan.
 type Reader struct {
@@ -102,7 +125,7 @@ func (r *Reader) Read(p []byte) (int, error) {
 	}
 	if r.stickyErr {
 		r.CallsAfterErr++
-		return 0, ErrInjected
+		return 0, r.err()
 	}
 	end := len(r.Data)
 	if r.Plan.Kind == Truncate && r.Plan.K < end {
@@ -113,12 +136,12 @@ func (r *Reader) Read(p []byte) (int, error) {
 	case ErrAt:
 		if r.pos >= r.Plan.K {
 			r.Fired, r.stickyErr = true, true
-			return 0, ErrInjected
+			return 0, r.err()
 		}
 	case Transient:
 		if !r.fired && r.pos >= r.Plan.K {
 			r.fired, r.Fired = true, true
-			return 0, ErrInjected
+			return 0, r.err()
 		}
 	case ZeroReads:
 		if r.pos >= r.Plan.K && r.zeros < r.Plan.M {
@@ -153,7 +176,7 @@ func (r *Reader) Read(p []byte) (int, error) {
 			r.Delivered = append(r.Delivered, r.Data[r.pos:r.pos+n]...)
 			r.pos += n
 			r.Fired, r.stickyErr = true, true
-			return n, ErrInjected
+			return n, r.err()
 		}
 	}
 	copy(p, r.Data[r.pos:r.pos+n])
